@@ -8,6 +8,21 @@ from pyvc.types import Str, Obj
 F = "corankco/utils.py::"
 
 
+def gen_parse(rng):
+    from corankco.element import Element
+    alphabet = "[]{},a1 :"
+    if rng.random() < 0.5:
+        k = rng.randint(0, 4)
+        txt = "[" + ", ".join("{" + ", ".join(rng.choice(["a", "1", "12", "b c"]) for _ in range(rng.randint(0, 3))) + "}"
+                              for _ in range(k)) + "]"
+        if rng.random() < 0.3:
+            pos = rng.randrange(len(txt) + 1)
+            txt = txt[:pos] + rng.choice(alphabet) + txt[pos:]
+    else:
+        txt = "".join(rng.choice(alphabet) for _ in range(rng.randint(0, 9)))
+    return dict(ranking=txt, converter=lambda x: Element(str(x)))
+
+
 def register(reg):
     reg.contract(
         F + "parse_ranking_with_ties", props=["C18"],
@@ -19,4 +34,5 @@ def register(reg):
             inv={"window": "en_str == -1 or (0 <= en_str and en_str <= ranking_end)"},
             # C18.terminates: the closing-bracket cursor strictly advances towards the last bracket, or becomes -1
             variant="ite(en_str == -1, 0, ranking_end - en_str + 1)")},
+        gen=gen_parse,
     )
